@@ -253,121 +253,89 @@ theorem wj_start (cfg : Cfg) (b0 : Bool) (hok : ¬ (cfg.checkNow = true ∧ cfg.
   unfold WJ WaitUntil.start Legacy.start Legacy.onMsg Legacy.holdFalseStep Legacy.holdStep Legacy.finish Legacy.init
   cases cn <;> cases H <;> cases S <;> cases b0 <;> simp_all
 
-/-! ## new subsystem: agreement up to the arguments, on histories without `skip` messages -/
+/-! ## new subsystem (as it is now): `true_entered_at`/`last_func_args` ↔ `pending`, `false_entered_at` ↔ `falseSince` -/
 
-/-- the new machine and the timeline agree on WHEN things happen (`true_entered_at` ↔ start of the pending delay,
-`false_entered_at` ↔ `falseSince`); the arguments agree as long as no delay is involved (`state_hold` absent) -/
-structure NR (cfg : Cfg) (st : NState) (ss : SState) : Prop where
-  times : st.runs.map (·.1) = ss.runs.map (·.1)
-  te : st.te = ss.pending.map (·.1)
-  fe : st.fe = ss.falseSince
-  hf : st.hf = cfg.holdFalse
-  full : cfg.hold = none → st.runs = ss.runs
-  teS : st.te.isSome = true → cfg.hold.isSome = true
+def nabs (st : NState) : SState :=
+  ⟨st.te.map (fun s => (s, st.la)), st.fe, st.runs⟩
 
-theorem nr_expire (cfg : Cfg) (st : NState) (ss : SState) (t : Nat) (h : NR cfg st ss)
+/-- static facts about a reachable state of `_cycle`: `state_hold_false` is the configured one (outside the
+`task.wait_until` reset) and a hold can only be pending when `state_hold` is given -/
+def NInv (cfg : Cfg) (st : NState) : Prop := st.hf = cfg.holdFalse ∧ (st.te.isSome = true → cfg.hold.isSome = true)
+
+theorem nabs_expire (cfg : Cfg) (st : NState) (t : Nat)
     (hno : ∀ s, st.te = some s → t ≠ s + cfg.hold.getD 0) :
-    NR cfg (if New.deadlineBefore cfg.hold st t then New.onTimeout cfg.hold st else st) (expire cfg ss t) := by
+    nabs (if New.deadlineBefore cfg.hold st t then New.onTimeout cfg.hold st else st) = expire cfg (nabs st) t := by
   obtain ⟨te, fe, la, hf, rs⟩ := st
-  obtain ⟨pending, fs, srs⟩ := ss
-  obtain ⟨h1, h2, h3, h4, h5, h6⟩ := h
-  simp only at h1 h2 h3 h4 h5 h6 hno
-  unfold New.deadlineBefore New.onTimeout expire
-  cases pending with
-  | none =>
-    simp only [Option.map_none] at h2
-    subst h2
-    exact ⟨h1, rfl, h3, h4, h5, by simp⟩
-  | some p =>
-    obtain ⟨s, a⟩ := p
-    simp only [Option.map_some] at h2
-    subst h2
+  unfold New.deadlineBefore New.onTimeout expire nabs
+  cases te with
+  | none => simp
+  | some s =>
     have := hno s rfl
-    have hS : cfg.hold.isSome = true := h6 rfl
     by_cases hd : s + cfg.hold.getD 0 < t
     · have h2 : s + cfg.hold.getD 0 ≤ t := Nat.le_of_lt hd
-      simp only [hd, decide_true, if_true, h2]
-      refine ⟨by simp [h1], rfl, h3, h4, ?_, by simp⟩
-      intro hn; rw [hn] at hS; simp at hS
+      simp [hd, h2]
     · have h2 : ¬ (s + cfg.hold.getD 0 ≤ t) := by omega
-      simp only [hd, decide_false, h2, if_false]
-      exact ⟨h1, rfl, h3, h4, h5, h6⟩
+      simp [hd, h2]
 
-theorem nr_flush (cfg : Cfg) (st : NState) (ss : SState) (h : NR cfg st ss) :
-    (New.onTimeout cfg.hold st).runs.map (·.1) = (flush cfg ss).runs.map (·.1) ∧
-      (cfg.hold = none → (New.onTimeout cfg.hold st).runs = (flush cfg ss).runs) := by
+theorem ninv_expire (cfg : Cfg) (st : NState) (t : Nat) (h : NInv cfg st) :
+    NInv cfg (if New.deadlineBefore cfg.hold st t then New.onTimeout cfg.hold st else st) := by
   obtain ⟨te, fe, la, hf, rs⟩ := st
-  obtain ⟨pending, fs, srs⟩ := ss
-  obtain ⟨h1, h2, h3, h4, h5, h6⟩ := h
-  simp only at h1 h2 h3 h4 h5 h6
-  unfold New.onTimeout flush
-  cases pending with
-  | none =>
-    simp only [Option.map_none] at h2
-    subst h2
-    exact ⟨h1, h5⟩
-  | some p =>
-    obtain ⟨s, a⟩ := p
-    simp only [Option.map_some] at h2
-    subst h2
-    have hS : cfg.hold.isSome = true := h6 rfl
-    refine ⟨by simp [h1], ?_⟩
-    intro hn; rw [hn] at hS; simp at hS
+  unfold NInv New.deadlineBefore New.onTimeout at *
+  cases te with
+  | none => simpa using h
+  | some s => by_cases hd : s + cfg.hold.getD 0 < t <;> simp [hd] <;> simp_all
+
+theorem nabs_flush (cfg : Cfg) (st : NState) : nabs (New.onTimeout cfg.hold st) = flush cfg (nabs st) := by
+  obtain ⟨te, fe, la, hf, rs⟩ := st
+  unfold New.onTimeout flush nabs
+  cases te <;> simp
 
 /-- one evaluation message (the hold, if pending, has not elapsed: the expiry step comes first) -/
-theorem nr_onEval (cfg : Cfg) (st : NState) (ss : SState) (t : Nat) (b : Bool) (a : Nat) (h : NR cfg st ss)
+theorem nabs_onEval (cfg : Cfg) (st : NState) (t : Nat) (b : Bool) (a : Nat) (h : NInv cfg st)
     (hfresh : ∀ s hh, st.te = some s → cfg.hold = some hh → t - s < hh) :
-    NR cfg (New.onMsg cfg.hold st t (.eval b) a) (onEval cfg ss t b a) := by
+    nabs (New.onMsgF New.current cfg.hold st t (.eval b) a) = onEval cfg (nabs st) t b a ∧
+      NInv cfg (New.onMsgF New.current cfg.hold st t (.eval b) a) := by
   obtain ⟨te, fe, la, hf, rs⟩ := st
-  obtain ⟨pending, fs, srs⟩ := ss
   obtain ⟨cn, S, H⟩ := cfg
-  obtain ⟨h1, h2, h3, h4, h5, h6⟩ := h
-  simp only at h1 h2 h3 h4 h5 h6 hfresh
-  subst h3; subst h4
-  unfold New.onMsg New.checkNewState onEval candidate
-  cases pending with
+  obtain ⟨h1, h2⟩ := h
+  simp only at h1 h2 hfresh
+  subst h1
+  unfold New.onMsgF New.remember New.current New.checkNewState onEval candidate nabs NInv
+  cases te with
   | none =>
-    simp only [Option.map_none] at h2
-    subst h2
     cases hf with
-    | none =>
-      cases S <;> cases b <;> refine ⟨?_, ?_, ?_, ?_, ?_, ?_⟩ <;> simp_all
+    | none => cases S <;> cases b <;> simp
     | some hv =>
       cases fe with
-      | none => cases S <;> cases b <;> refine ⟨?_, ?_, ?_, ?_, ?_, ?_⟩ <;> simp_all
+      | none => cases S <;> cases b <;> simp
       | some f =>
         by_cases hge : t - f ≥ hv
-        · cases S <;> cases b <;> refine ⟨?_, ?_, ?_, ?_, ?_, ?_⟩ <;> simp_all
+        · cases S <;> cases b <;> simp [hge]
         · have hlt : t - f < hv := by omega
-          cases S <;> cases b <;> refine ⟨?_, ?_, ?_, ?_, ?_, ?_⟩ <;> simp [hge, hlt] <;> simp_all
-  | some p =>
-    obtain ⟨s, a'⟩ := p
-    simp only [Option.map_some] at h2
-    subst h2
+          cases S <;> cases b <;> simp [hge, hlt]
+  | some s =>
     cases S with
-    | none => simp at h6
+    | none => simp at h2
     | some hh =>
-      have hlt : ¬ (t - s ≥ hh) := by have := hfresh s hh rfl rfl; omega
-      have hlt' : t - s < hh := by omega
+      have hlt' : t - s < hh := hfresh s hh rfl rfl
+      have hlt : ¬ (t - s ≥ hh) := by omega
       cases hf with
-      | none =>
-        cases b <;> refine ⟨?_, ?_, ?_, ?_, ?_, ?_⟩ <;> simp [hlt, hlt'] <;> simp_all
+      | none => cases b <;> simp [hlt, hlt']
       | some hv =>
         cases fe with
-        | none => cases b <;> refine ⟨?_, ?_, ?_, ?_, ?_, ?_⟩ <;> simp [hlt, hlt'] <;> simp_all
+        | none => cases b <;> simp [hlt, hlt']
         | some f =>
           by_cases hge : t - f ≥ hv
-          · cases b <;> refine ⟨?_, ?_, ?_, ?_, ?_, ?_⟩ <;> simp [hlt, hlt', hge] <;> simp_all
+          · cases b <;> simp [hlt, hlt', hge]
           · have hlt2 : t - f < hv := by omega
-            cases b <;> refine ⟨?_, ?_, ?_, ?_, ?_, ?_⟩ <;> simp [hge, hlt2, hlt, hlt'] <;> simp_all
+            cases b <;> simp [hge, hlt2, hlt, hlt']
 
-theorem nr_start (cfg : Cfg) (wu b0 : Bool)
+theorem nabs_start (cfg : Cfg) (wu b0 : Bool)
     (hok : ¬ (cfg.checkNow = true ∧ cfg.holdFalse.isSome = true ∧ b0 = true)) :
-    NR cfg (New.start cfg wu b0) (Spec.start cfg b0) := by
+    nabs (New.start cfg wu b0) = Spec.start cfg b0 ∧ NInv cfg (New.start cfg wu b0) := by
   obtain ⟨cn, S, H⟩ := cfg
-  unfold New.start New.checkNewState Spec.start candidate
-  cases cn <;> cases H <;> cases S <;> cases b0 <;> cases wu <;>
-    refine ⟨?_, ?_, ?_, ?_, ?_, ?_⟩ <;> simp_all
+  unfold New.start New.checkNewState Spec.start candidate nabs NInv
+  cases cn <;> cases H <;> cases S <;> cases b0 <;> cases wu <;> simp_all
 
 theorem nr_start_te (cfg : Cfg) (wu b0 : Bool) (s : Nat) (h : (New.start cfg wu b0).te = some s) : s = 0 := by
   obtain ⟨cn, S, H⟩ := cfg
@@ -377,16 +345,16 @@ theorem nr_start_te (cfg : Cfg) (wu b0 : Bool) (s : Nat) (h : (New.start cfg wu 
 
 /-- `true_entered_at` is only ever set to the time of the message being handled -/
 theorem new_onMsg_te (hold : Option Nat) (st : NState) (t : Nat) (k : Kind) (a : Nat) (s : Nat)
-    (h : (New.onMsg hold st t k a).te = some s) : s = t ∨ st.te = some s := by
+    (h : (New.onMsgF New.current hold st t k a).te = some s) : s = t ∨ st.te = some s := by
   obtain ⟨te, fe, la, hf, rs⟩ := st
   revert h
-  unfold New.onMsg New.checkNewState
+  unfold New.onMsgF New.remember New.current New.checkNewState
   cases k with
   | unrelated => intro h; exact Or.inr h
-  | skip => cases hf <;> cases fe <;> simp
+  | skip => intro h; exact Or.inr (by simpa using h)
   | eval b =>
     cases b with
-    | false => cases hf <;> cases fe <;> simp
+    | false => cases hf <;> cases fe <;> cases te <;> simp
     | true =>
       have fin : ∀ (x : NState), (x.te = none ∨ x.te = some t ∨ x.te = te) → x.te = some s → s = t ∨ te = some s := by
         intro x hx h
@@ -398,42 +366,41 @@ theorem new_onMsg_te (hold : Option Nat) (st : NState) (t : Nat) (k : Kind) (a :
       cases hf with
       | none =>
         cases hold with
-        | none => simp
+        | none => cases te <;> simp
         | some hh =>
           cases te with
           | none => simp
           | some t0 => by_cases hc : t - t0 ≥ hh <;> simp [hc]
       | some hv =>
         cases fe with
-        | none => simp
+        | none => cases te <;> simp
         | some f =>
           by_cases hge : t - f ≥ hv
           · cases hold with
-            | none => simp [hge]
+            | none => cases te <;> simp [hge]
             | some hh =>
               cases te with
               | none => simp [hge]
               | some t0 => by_cases hc : t - t0 ≥ hh <;> simp [hge, hc]
-          · simp [hge]
+          · cases te <;> simp [hge]
 
-def noSkip (hist : List Evt) : Bool := hist.all (fun e => e.k != Kind.skip)
-
+/-- **simulation, new subsystem (current code)**: along any no-ties history – `skip` messages included – `_cycle`
+and the timeline agree on the whole state: runs, times, and the arguments remembered for a pending hold -/
 theorem new_sim (cfg : Cfg) (hist : List Evt) :
-    ∀ (st : NState) (ss : SState), NR cfg st ss → noSkip hist = true →
+    ∀ (st : NState), NInv cfg st →
       (∀ s, st.te = some s → gridFrom cfg s hist = true) → grid cfg hist = true →
-      (New.drive cfg.hold st hist).runs.map (·.1) = (Spec.drive cfg ss hist).runs.map (·.1) ∧
-        (cfg.hold = none → (New.drive cfg.hold st hist).runs = (Spec.drive cfg ss hist).runs) := by
+      nabs (New.driveF New.current cfg.hold st hist) = Spec.drive cfg (nabs st) hist := by
   induction hist with
-  | nil => intro st ss h _ _ _; simp only [New.drive, Spec.drive]; exact nr_flush cfg st ss h
+  | nil => intro st _ _ _; simp only [New.driveF, Spec.drive]; exact nabs_flush cfg st
   | cons e es ih =>
-    intro st ss h hns hw hg
-    simp only [New.drive, Spec.drive]
+    intro st hinv hw hg
+    simp only [New.driveF, Spec.drive]
     have hg' : gridFrom cfg e.t es = true ∧ grid cfg es = true := by simpa [grid] using hg
-    have hns' : e.k ≠ Kind.skip ∧ noSkip es = true := by simpa [noSkip] using hns
     have hno : ∀ s, st.te = some s → e.t ≠ s + cfg.hold.getD 0 := fun s hs => (gridFrom_tail (hw s hs)).1.2
-    have hexp := nr_expire cfg st ss e.t h hno
-    generalize hst1 : (if New.deadlineBefore cfg.hold st e.t then New.onTimeout cfg.hold st else st) = st1 at hexp
-    -- if the hold is still pending after the expiry step, it has not elapsed
+    have hexp := nabs_expire cfg st e.t hno
+    have hinv1 := ninv_expire cfg st e.t hinv
+    generalize hst1 : (if New.deadlineBefore cfg.hold st e.t then New.onTimeout cfg.hold st else st) = st1
+      at hexp hinv1
     have hte1 : ∀ s, st1.te = some s → st.te = some s ∧ ¬ (s + cfg.hold.getD 0 < e.t) := by
       intro s hs
       rw [← hst1] at hs
@@ -454,13 +421,17 @@ theorem new_sim (cfg : Cfg) (hist : List Evt) :
       have h3 := (gridFrom_tail (hw s h1)).1
       simp only [hH, Option.getD_some] at h2 h3
       omega
-    have hstep : NR cfg (New.onMsg cfg.hold st1 e.t e.k e.a) (onEvt cfg ss e) := by
+    have hstep : nabs (New.onMsgF New.current cfg.hold st1 e.t e.k e.a) = onEvt cfg (nabs st) e ∧
+        NInv cfg (New.onMsgF New.current cfg.hold st1 e.t e.k e.a) := by
       unfold onEvt
       cases hk : e.k with
-      | eval b => exact nr_onEval cfg st1 _ e.t b e.a hexp hfresh
-      | skip => exact absurd hk hns'.1
-      | unrelated => simp only [New.onMsg]; exact hexp
-    apply ih _ _ hstep hns'.2 _ hg'.2
+      | eval b =>
+        have := nabs_onEval cfg st1 e.t b e.a hinv1 hfresh
+        rw [hexp] at this; exact this
+      | skip => simp only [New.onMsgF, New.current, Bool.false_eq_true, if_false]; exact ⟨hexp, hinv1⟩
+      | unrelated => simp only [New.onMsgF]; exact ⟨hexp, hinv1⟩
+    rw [← hstep.1]
+    apply ih _ hstep.2 _ hg'.2
     intro s hs
     rcases new_onMsg_te cfg.hold st1 e.t e.k e.a s hs with h1 | h1
     · rw [h1]; exact hg'.1
